@@ -304,66 +304,57 @@ func ruleFixedDecsShape(c *Ctx, m *Model) {
 		c.Trivial("C01.PREC", "GetNonNegativeFixedDecs#shape", "-", "no function of that name: the intrinsic summary is not in use")
 		return
 	}
-	// every element stored into the result is exactly the value returned by NewNonNegativeFixedDecFromString(decimal, precision)
-	ok := true
-	why := ""
-	nStores, nCalls := 0, 0
-	var ctor *ssa.Call
-	for _, ci := range callsIn(fn) {
-		call, isCall := ci.(*ssa.Call)
-		if !isCall {
-			continue
+	// The explorer replaces calls of this function by the summary "result[i] = the non-negative decimal
+	// parsed from argument i, with at most `precision` decimal places; error otherwise". The summary is
+	// confirmed by exploring the body itself (whatever helpers, generics or loops it is written with) on
+	// a symbolic precision and two symbolic strings: every successful return must yield exactly the two
+	// values the summary yields, and at least one successful return must exist.
+	ok, why := true, ""
+	x := NewExplorer(m)
+	var exp [2]string
+	outs := x.ExploreWith(fn, func(st *State) []Val {
+		arr := st.newObj("array", fn.Params[len(fn.Params)-1].Type())
+		arr.Origin = "seq"
+		s0, s1 := &Sym{N: "s0"}, &Sym{N: "s1"}
+		arr.F["[0]"], arr.F["[1]"] = s0, s1
+		for i, sv := range []Val{s0, s1} {
+			e := x.constrain(st.clone(), x.parseDec(st, sv), true, false, "prec")
+			exp[i] = fmt.Sprintf("%s nonneg=%v fixed=%s inexact=%v", e.vs(), e.NonNeg, e.Fixed, e.Inexact)
 		}
-		pkg, name := calleePkgName(&call.Call)
-		if pkg == "builtin" {
-			continue
-		}
-		if strings.HasSuffix(pkg, mathPkgSuffix) && name == "NewNonNegativeFixedDecFromString" {
-			ctor = call
-			nCalls++
-			if call.Call.Args[1] != ssa.Value(fn.Params[0]) {
-				ok, why = false, "precision argument is not the function's precision parameter"
+		return []Val{&Sym{N: "prec", T: fn.Params[0].Type()}, &Ptr{O: arr.ID}}
+	})
+	nOK := 0
+	if x.cut {
+		ok, why = false, "exploration of the body was cut short"
+	}
+	for _, o := range outs {
+		if o.Kind != exitReturn || !o.Commit || len(o.Rets) < 1 {
+			if o.Kind == exitLoopback {
+				ok, why = false, "the body iterates over something other than its argument list (a loop the explorer could not unroll)"
 			}
 			continue
 		}
-		ok, why = false, "unexpected call to "+name+" in the body"
-	}
-	for _, b := range fn.Blocks {
-		for _, in := range b.Instrs {
-			st, isSt := in.(*ssa.Store)
-			if !isSt {
+		els, known := x.sliceElems(o.St, o.Rets[0])
+		if !known || len(els) != 2 {
+			ok, why = false, fmt.Sprintf("a successful return yields %d known elements for 2 arguments", len(els))
+			continue
+		}
+		nOK++
+		for i, el := range els {
+			d, isD := el.(*DecV)
+			if !isD {
+				ok, why = false, fmt.Sprintf("element %d of the result is %s, not a parsed decimal", i, o.St.canon(el))
 				continue
 			}
-			if _, isIdx := st.Addr.(*ssa.IndexAddr); !isIdx {
-				continue
-			}
-			nStores++
-			ex, isEx := st.Val.(*ssa.Extract)
-			if !isEx || ex.Tuple != ssa.Value(ctor) || ex.Index != 0 {
-				ok, why = false, "stored element is not the unmodified constructor result"
+			if got := fmt.Sprintf("%s nonneg=%v fixed=%s inexact=%v", d.vs(), d.NonNeg, d.Fixed, d.Inexact); got != exp[i] {
+				ok, why = false, fmt.Sprintf("element %d of the result is {%s}, the summary says {%s}", i, got, exp[i])
 			}
 		}
 	}
-	if nCalls != 1 || nStores != 1 {
-		ok, why = false, fmt.Sprintf("expected one constructor call and one element store, found %d and %d", nCalls, nStores)
+	if ok && nOK == 0 {
+		ok, why = false, "no successful return found"
 	}
-	if ok && ctor != nil {
-		// success only when the constructor succeeded
-		if ex := extractOf(ctor, 1); ex != nil {
-			good := false
-			for _, r := range *ex.Referrers() {
-				if bo, isB := r.(*ssa.BinOp); isB && isNilConst(bo.Y) {
-					if ifi, _ := ifOn(bo); ifi != nil {
-						good = true
-					}
-				}
-			}
-			if !good {
-				ok, why = false, "constructor error is not checked"
-			}
-		}
-	}
-	c.Check(ok, "C01.PREC", "GetNonNegativeFixedDecs#shape", p.Pos(fn.Pos()), "body = for each string: NewNonNegativeFixedDecFromString(s, precision), error checked, result stored unmodified "+why)
+	c.Check(ok, "C01.PREC", "GetNonNegativeFixedDecs#shape", p.Pos(fn.Pos()), "explored body agrees with the summary: result[i] = non-negative decimal parsed from argument i with at most `precision` places, on every successful return "+why)
 }
 
 // ruleBatchSupplyInvariant: flow table on the registered invariant.
